@@ -88,6 +88,15 @@ func (s *Server) ProtocolInstance() *protocol.Protocol {
 
 func (s *Server) Start() {
 	p := s.ProtocolInstance()
+	// We create our own vars for these channels since they get replaced on restart.
+	// They must be captured before the protocol is started: once it runs, the peer
+	// can drive it through a whole conversation up to the next restart
+	// (handleDone), which replaces the fields. Reading them later (or from inside
+	// the cleanup goroutine) let two cleanup goroutines close the same channel
+	// and let the old instance's cleanup close the new instance's channels.
+	requestTxIdsResultChan := s.requestTxIdsResultChan
+	requestTxsResultChan := s.requestTxsResultChan
+	doneChan := p.DoneChan()
 	p.Logger().
 		Debug("starting server protocol",
 			"component", "network",
@@ -96,11 +105,7 @@ func (s *Server) Start() {
 		)
 	p.Start()
 	// Start goroutine to cleanup resources on protocol shutdown
-	doneChan := p.DoneChan()
 	go func() {
-		// We create our own vars for these channels since they get replaced on restart
-		requestTxIdsResultChan := s.requestTxIdsResultChan
-		requestTxsResultChan := s.requestTxsResultChan
 		<-doneChan
 		close(requestTxIdsResultChan)
 		close(requestTxsResultChan)
